@@ -220,6 +220,16 @@ fn parent(args: &Args) {
     run::classify_ends(&ends, &mut out, true);
     let mut extra = Map::new();
     vlib::sanlayer::run_layers(ID, args, &mut out, &mut extra);
+    run::dbg_build_layer(
+        ID,
+        args,
+        vec![
+            ChildSpec::new("hist", args.get_u64("dbg_shards", 1280)).arg("hist", args.get_u64("hist", 120)).timeout(900),
+            ChildSpec::new("conc", args.get_u64("dbg_cshards", 800)).arg("runs", args.get_u64("runs", 10)).timeout(900),
+        ],
+        &mut out,
+        &mut extra,
+    );
     run::finish(
         Finish {
             id: ID,
